@@ -379,7 +379,7 @@ theorem desc_accelerated (pr : Params α) (c n : Iterate α) (h : linesearchViol
     n.fbe ≤ c.fbe - pr.lsStrictness * (1 - c.gamma * c.L) / (2 * c.gamma) * c.pTp
       + (1 + |c.fbe|) * pr.lsTol := by
   unfold linesearchViolated ocp_linesearchViolated at h
-  simp only [eabs_eq_abs, decide_eq_false_iff_not, not_lt] at h
+  simp only [eabs_eq_abs, Bool.not_eq_false', decide_eq_true_eq] at h
   exact h
 
 /-- safeguarded step: quadratic upper bound of `c` + optimality of the projected-gradient step of `n` -/
@@ -399,7 +399,7 @@ theorem desc_safeguarded (O : Oracles α) (P : Prob α) (pr : Params α) (hB : B
   have e2 : n.gradPsiTp = (evalProxImpl P n.gamma n.u n.gradPsi).2.2.2 := congrArg (fun t => t.2.2.2) hn.2.1
   rw [← e1, ← e2] at hopt
   unfold qubViolated ocp_qubViolated at hq
-  simp only [eabs_eq_abs, decide_eq_false_iff_not, not_lt] at hq
+  simp only [eabs_eq_abs, Bool.not_eq_false', decide_eq_true_eq] at hq
   rw [fbe_def, fbe_def, hs.2]
   have hγ := hgc.1
   have e3 : c.pTp / (2 * c.gamma) - (1 - c.gamma * c.L) / (2 * c.gamma) * c.pTp = 0.5 * c.L * c.pTp := by
